@@ -71,7 +71,7 @@ def gen_mags(rng, n):
             b = round(a / math.log2(q))
             mags.append(merge(P(2, a), P(q, -b)))
             mags.append(merge(P(2, -a), P(q, b)))
-        a = rng.randrange(lo_e, hi_e)
+        a = rng.randrange(lo_e, min(hi_e, 4000))     # sqrt of 2^(2a+1): the bisection squares about 2^(2a), which must stay below LDBL_MAX
         mags.append(merge(P(2, Fraction(2 * a + 1, 2)), P(5, -round((a + 0.5) / math.log2(5)))))
     mags.append({"pi": Fraction(1)})
     mags.append({"pi": Fraction(2)})
@@ -148,10 +148,20 @@ def intermediate_overflow(m):
     """Some single base power of the magnitude (or its reciprocal, for negative exponents) exceeds LDBL_MAX, so the library's
     long-double evaluation overflows on the way even if the final value is representable."""
     lnmax = Decimal(FMAX["f80"].numerator).ln()
+    ln2 = Decimal(2).ln()
     for b, e in m.items():
         base = PI if b == "pi" else Decimal(int(b[1:]))
-        if abs(base.ln() * Decimal(Fraction(e).numerator) / Decimal(Fraction(e).denominator)) > lnmax:
+        e = Fraction(e)
+        if abs(base.ln() * Decimal(e.numerator) / Decimal(e.denominator)) > lnmax:
             return True
+        if abs(base.ln() * Decimal(e.numerator)) > lnmax:
+            return True             # the integer power taken before the root
+        if e.denominator > 1:
+            # root(x, D) bisects on [1, x] and raises the first midpoint (about x/2) to the D-th power with the checked power:
+            # that overflows long double when D * ln(x/2) > ln(LDBL_MAX), although the root itself is small
+            lnx = abs(base.ln() * Decimal(e.numerator))
+            if e.denominator * (lnx - ln2) > lnmax:
+                return True
     return False
 
 
